@@ -20,6 +20,7 @@ import Proofs.TimeShape
 import Proofs.LineLevel
 import Proofs.RoundTrip
 import Proofs.ValueTie
+import Proofs.ExportText
 
 namespace Jl.C04
 open Jl Jl.Value Cast CastTyped
@@ -189,5 +190,33 @@ theorem value_model_is_the_source :
     Gen.valueTable.formats = Format.declared.map (fun f => (f.goName, (f.ctorIdx : Int))) :=
   ⟨ValueTie.table_known, ValueTie.import_as_modelled, ValueTie.importCell_as_modelled,
    ValueTie.export_as_modelled, ValueTie.formats_as_modelled⟩
+
+/-! ### The text route (`Exporter.Export` / `CreateRow` given JSON text): classes on the bytes (`Proofs/ExportText`) -/
+
+open Jl.JsonQuote (sanitize) in
+open Jl.Template in
+/-- For text handed straight to `Export` over the regenerated tables: the line is an object text and a newline and
+    `LineSpec.classViolation` finds nothing in the object read back from it — whatever the text holds under a declared
+    name, the member is in its format's class or the line is rejected.  (Distinct names the escaper leaves alone; the
+    zone bound when the template has a date-time column.)  Here the cell comes from `Import` under the OUTPUT
+    descriptor, so its raw value is typed (`ExportText.text_cell_typed`): the `swallowed-cast` route does not exist. -/
+theorem text_route_in_class (ext : Ext) (to : Tmpl) (line b : Bytes) (fuel : Nat)
+    (h : exportLine ⟨genTables, ext⟩ to (.str line) = .ok (b, none)) (hx : JsonPrint.FloatTextOK ext)
+    (hto : (OMap.keys to).Nodup) (hutf : ∀ k ∈ OMap.keys to, sanitize k = k)
+    (hdt : (∃ kv ∈ to, Cells.format kv.2 = .datetime) → ExportText.DateTimeSideText ext to) :
+    ∃ body t, b = body ++ [0x0A] ∧ Json.unmarshal body = (t, true) ∧
+      LineSpec.classViolation fuel (LineLevel.leafCols to) t = none :=
+  ExportText.text_bytes_in_class ext to line b fuel h hx hto hutf hdt
+
+open Jl.Template in
+/-- The two routes DIFFER on the same text and output template — kernel-checked: under `c: string(int)` the text
+    `{"c":""}` is rejected by the text route (the import under the output descriptor fails) and emitted by the
+    importer→exporter route (`NewValue` swallows the failed cast: the known finding `swallowed-cast` of C05). -/
+theorem text_route_differs_from_importer_route :
+    exportLine ExportText.Swallowed.env ExportText.Swallowed.to (.str ExportText.Swallowed.line) =
+      .ok ([], some .unsupportedImport) ∧
+    jlLine ExportText.Swallowed.env [] ExportText.Swallowed.to ExportText.Swallowed.line =
+      .ok (ExportText.Swallowed.line ++ [0x0A], none) :=
+  ⟨ExportText.Swallowed.routes_differ.1, ExportText.Swallowed.routes_differ.2.1⟩
 
 end Jl.C04
